@@ -2,6 +2,8 @@ package pebbles
 
 import (
 	"sort"
+
+	"github.com/buildbuildio/pebbles/planner"
 )
 
 // C13: the same operation sent twice yields the same data, the same set of errors and the same
@@ -89,4 +91,40 @@ func VerifDeterminism() {
 		}
 	}
 	verifReach("two runs compared")
+}
+
+// VerifRepeatWithCache: operation B is sent, then operation A, then B again, to one gateway with the
+// caching planner: both answers to B must coincide (a request in between must not change an answer).
+func VerifRepeatWithCache() {
+	vProp = "C13"
+	vK = 1
+	vMinLen = 1
+	ops := vReadmeOps()
+	bi := verifChoice("B", len(ops))
+	ai := verifChoice("A", len(ops))
+	A, B := ops[ai], ops[bi]
+	verifLog("op: " + B.q + " after " + A.q)
+	if A.known != "" || B.known != "" {
+		verifAssume(false) // operations whose translation is a recorded C01/C02 finding are outside this kernel
+	}
+	varsOf := func(o vOp) map[string]interface{} {
+		if o.vars != nil {
+			return o.vars()
+		}
+		return nil
+	}
+	va, vb := varsOf(A), varsOf(B)
+	f := vNewFed(vReadmeWorld(1), []GatewayOption{WithPlanner(planner.NewCachedPlanner(1000000000))}, vSA, vSB, vSC)
+	_, out1 := f.vPost(B.q, vb, B.opName)
+	f.vPost(A.q, va, A.opName)
+	_, out2 := f.vPost(B.q, vb, B.opName)
+	d1, _ := out1["data"].(map[string]interface{})
+	d2, _ := out2["data"].(map[string]interface{})
+	verifAssert((d1 == nil) == (d2 == nil), "data is present in both answers or in neither")
+	if d1 != nil && d2 != nil {
+		vAssertSame("", d2, d1)
+	}
+	e1, e2 := vErrSet(out1), vErrSet(out2)
+	verifAssert(len(e1) == len(e2), "the same set of errors")
+	verifReach("repeat compared")
 }
